@@ -106,6 +106,8 @@ def run_check(pid, tier, repo, seed, opts):
             checker_errors.append('unit %s crashed: %s' % (r['unit'], r['error'][:400]))
         elif not r['obligations'] and not r['undecided']:
             checker_errors.append('unit %s generated zero obligations' % r['unit'])
+        elif r.get('live_paths', 1) == 0 and not r['undecided']:
+            checker_errors.append('unit %s: every completed path has a contradictory path condition (vacuous proof)' % r['unit'])
     if not units:
         checker_errors.append('no proof units registered for %s' % pid)
     sat = [o for o in obs if o['status'] in ('sat', 'sat?')]
@@ -211,6 +213,9 @@ def run_check(pid, tier, repo, seed, opts):
         'solver_seconds': round(sum(o['time'] for o in obs), 3),
         'slowest': [{'name': o['name'], 'unit': o['unit'], 's': o['time']} for o in slow],
         'covers_reached': sorted(covers),
+        'paths_explored': sum(r.get('paths', 0) for r in results),
+        'paths_completed_with_satisfiable_condition': sum(r.get('live_paths', 0) for r in results),
+        'paths_vacuous': sum(r.get('vacuous_paths', 0) for r in results),
         'canaries': canary_res,
         'cvc5_cross_check': {'agree_unsat': cvc5_agree, 'other': cvc5_other},
         'bounded_standins': [standin] if standin else [],
